@@ -340,7 +340,17 @@ fn main() {
                     }
                     "primal" => {
                         if let (Some((vo, so)), Some((vw, sw))) = (m.witness(false), m.witness(true)) {
-                            c.primal = if k % 2 == 0 { vec![(vo, so)] } else { vec![(vw, sw)] };
+                            c.primal = match k % 4 {
+                                0 => vec![(vo, so)],
+                                1 => vec![(vw, sw)],
+                                2 => vec![(vw, sw), (vo, so)],
+                                // the same value twice with two different solutions: the incumbent must not be replaced
+                                _ => vec![(vw, sw.clone()), (vw, {
+                                    let mut s2 = sw;
+                                    s2.reverse();
+                                    s2
+                                })],
+                            };
                             jobs.push((Model::from_json(&m.to_json()), c, "primal".into()));
                         }
                     }
